@@ -774,9 +774,15 @@ impl<'a> Hooks for Checker<'a> {
                 // a refused installation leaves the function untouched and gives everything back
                 let slot_now = with_world(|w| w.peek(s, SLOT as usize).unwrap());
                 if slot_now != self.slot_before {
+                    // a function left half-patched is also a wrong decode for the arch-specific properties
+                    let fprops: &[&'static str] = match self.arch {
+                        Arch::X86_64 => &["C11", "C05", "C01"],
+                        Arch::A64 => &["C11", "C05", "C01", "C15"],
+                        Arch::Arm => &["C11", "C05", "C01", "C16"],
+                    };
                     self.viol(
                         "failed-install-modified-function",
-                        &["C11", "C05", "C01"],
+                        fprops,
                         format!("{what}: panicked with {:?} but the entry bytes changed from {:02x?} to {:02x?}", msg, self.slot_before, slot_now),
                     );
                 }
